@@ -376,10 +376,10 @@ func runC14(r *core.Run) {
 			return core.OK(fmt.Sprint("len", min(len(seq), 3)), true)
 		})
 
-	core.Clause(r, "reading-frames-long", core.Opts{Rule: "position-dependent mixed-case sequences of every length 8..400 and 3000..3005, 65535..65540: the frame law and Translate(dst, seq) == dst + reference translation; non-trivial = all"},
+	core.Clause(r, "reading-frames-long", core.Opts{Rule: "position-dependent mixed-case sequences of EVERY length 8..1100 (thorough 8..9000) and 3000..3005, 65535..65540: the frame law, Translate(dst, seq) == dst + reference translation, and appending to any one of the three results (within its capacity) leaves the other two unchanged; non-trivial = all"},
 		func(emit func(c14Bad) bool) {
 			var lens []int
-			for l := 8; l <= 400; l++ {
+			for l := 8; l <= core.Pick(r, 1100, 9000); l++ {
 				lens = append(lens, l)
 			}
 			lens = append(lens, 3000, 3001, 3002, 3003, 3004, 3005, 65535, 65536, 65537, 65538, 65539, 65540)
@@ -411,6 +411,25 @@ func runC14(r *core.Run) {
 				t := sequtil.Translate(dst, sub)
 				if !bytes.Equal(t, append(dc, want...)) {
 					return core.Failf("Translate(dst, sequence of length %d) != dst + translation", len(sub))
+				}
+			}
+			// The three results belong to the caller, each with all of its capacity: filling one up to its
+			// capacity and appending to it (what using it as dst of a later Translate does) must leave the
+			// other two as they were. Frames cut from one buffer without a capacity limit fail here.
+			for i := 0; i < 3; i++ {
+				var snap [3]string
+				for j := range got {
+					snap[j] = string(got[j])
+				}
+				full := got[i][:cap(got[i])]
+				for k := len(got[i]); k < len(full); k++ {
+					full[k] = '#'
+				}
+				_ = append(got[i], "MKV"...)
+				for j := range got {
+					if j != i && string(got[j]) != snap[j] {
+						return core.Failf("TranslateReadingFrames(length %d): appending to result %d (within its capacity %d) changed result %d from %q to %q", len(seq), i, cap(got[i]), j, trunc(snap[j], 40), trunc(string(got[j]), 40))
+					}
 				}
 			}
 			return core.Outcome{Class: fmt.Sprint("len%3=", len(seq)%3), Nontrivial: true, Evals: 4}
